@@ -9,7 +9,8 @@ from .common import MachineryError
 
 C01_CLAUSES = {'CoolantEnergyBalance', 'WallHeatBookkeeping', 'SweepBalance',
                'MixedMeanCarriedOver', 'NewRegionUniformAtMixedMean',
-               'RegionsInOrder', 'PowerBookkeeping'}
+               'RegionsInOrder', 'PowerBookkeeping',
+               'NodeFlowsSumToAssemblyFlow'}
 C02_CLAUSES = {'DuctHeatEqualsGapCredit', 'GapConductionOnlyMovesHeat',
                'GapBookkeeping', 'CoreBalance', 'GapCreditEqualsDuctLoss',
                'AdiabaticMeansNoOuterFlux', 'AdiabaticCore',
